@@ -7,11 +7,15 @@
   also runs the same family on the C implementation itself.
 -/
 import AL.Properties.SweepDefs
+import AL.Spec.X86FamiliesExtra
 namespace AL.Properties.Sweep
 open AL.Spec.X86
 
 /-- **C03, every instance of the quick family** (registers rcx/r10 and their sub-registers, ch): each immediate-taking entry over the boundary values, in
     hexadecimal, decimal, negated and zero-padded spellings, in the three mov-immediate modes -/
 theorem c03_sweep : sweep [14, 0, 1] (famC03 false) = true := by native_decide
+
+/-- the same for literals written with more digits than a 64-bit number needs (family `famC03x`, AL/Spec/X86FamiliesExtra.lean) -/
+theorem c03_sweep_padded : sweep [14, 0] famC03x = true := by native_decide
 
 end AL.Properties.Sweep
